@@ -1,4 +1,5 @@
 import RreModel.C09.Complete
+import RreModel.C09.CandLemmas
 /-
 C09 — property theorems for the backward-chaining search model (only; lemmas in Lemmas.lean).
 
@@ -130,7 +131,8 @@ conditions of the rules that are not used in the derivation: And/Or trees, any c
 initial store compatible with them (`Compat`; any enclosing undo frames), every `max_depth`, every
 `max_solutions`, every order of the top-level candidate list and every sub-goal candidate function
 as long as they offer the rules that assign the wanted value (`Covers`; the code's conclusion
-index and substring heuristic do), every equality goal:
+index and substring heuristic do: `topCandidates_covers`, `subCandidates_covers`, and
+`dfs_complete_code` is this theorem without the two hypotheses), every equality goal:
 
 if the goal has a derivation `Deriv` of height `h ≤ max_depth + 1` from the initial facts — a tree
 whose leaves are facts of the initial store (height 0) and whose inner nodes are rules with
@@ -310,6 +312,135 @@ example : (match candStep ⟨hornKb, 1, hornSub⟩ true (searchN rbCode ⟨hornK
 example : (List.range 8).map (query hornKb .dfs 2 1 hornSub wGoal [1, 2] ⟨dataOf wBefore, []⟩).store.data =
     [some (.bool true), some (.bool true), some (.bool true), none, none, some (.bool true), some (.num 1), none] := by
   decide
+
+/-! ### the candidate lists the code computes cover (`Covers` discharged)
+
+`Candidates.lean` computes the two candidate lists the way the code does — the top-level one by running
+C16's model of `ConclusionIndex` (`from_rules`, `find_candidates`) on the knowledge base, with the
+linear fallback of `find_candidate_rules`; the sub-goal one by `rule_could_prove_pattern` over
+`kb.get_rules()` — and the driver calls these functions.  The theorems below show that they offer
+every rule that assigns the wanted value, so the hypothesis `Covers` of `dfs_complete` is a property
+of the code's candidate computation, not an assumption. -/
+
+/-- **The substring heuristic of `try_prove_single_condition` covers** — every naming, every
+knowledge base, every condition atom (any comparison): a rule with a `Set` on the atom's field
+passes `rule_could_prove_pattern`, because the pattern text starts with that field's name.  (It
+offers MORE than that: every rule with a `Set` / `MethodCall` whose field, object or method name
+occurs anywhere in the pattern, literal included.) -/
+theorem subCandidates_covers (nm : Naming) (kb : List Rule) (a : Atom) :
+    Covers kb (subCandidates nm kb a) a := by
+  apply covers_of_indices
+  intro i r hi hcon
+  apply mem_positionsWhere hi
+  have hset := set_mem_of_concludes nm i r a.field a.val hcon
+  simp only [couldProvePattern, List.any_eq_true]
+  exact ⟨_, hset, contains_pattern_field nm a⟩
+
+/-- **`find_candidate_rules` covers** — knowledge base with unique rule names (`add_rule` enforces
+it), index built from it (`BackwardEngine::new` / `with_config` / `rebuild_index`), equality goal on
+a field whose name contains no `==` and no outer white space: every rule with a `Set` of the
+goal's value on the goal's field is proposed by `ConclusionIndex::find_candidates` (C16's
+`from_rules_complete`, reused through `extractField_pattern`); the lookup is then non-empty, so the
+linear fallback does not replace it.  (Also offered: every rule with a conclusion that starts with
+the goal field's parent object — the `rfind('.')` branch — a superset.) -/
+theorem topCandidates_covers (nm : Naming) (kb : List Rule) (goal : Atom)
+    (hu : RuleNamesUnique nm kb) (hop : goal.op = .eq) (hf : FieldOk (nm.field goal.field)) :
+    Covers kb (topCandidates nm kb goal) goal := by
+  apply covers_of_indices
+  intro i r hi hcon
+  have hm := mem_indexCandidates nm kb goal hu hop hf i r hi hcon
+  have hne : (indexCandidates nm kb goal).isEmpty = false := by
+    cases hl : indexCandidates nm kb goal with
+    | nil => rw [hl] at hm; cases hm
+    | cons _ _ => rfl
+  simp only [topCandidates, hne, Bool.false_eq_true, if_false]
+  exact hm
+
+/-- **Bounded completeness of the depth-first search with the candidate lists the code computes**
+(no `Covers` hypothesis): `dfs_complete` for `subCands := subCandidates nm kb` and for EVERY
+enumeration `order` of the top-level candidates (`find_candidates` hands back a `HashSet`; extra or
+repeated entries in `order` do not matter).  What is left as hypotheses is about the TEXT of the
+tie only: the rule names are pairwise different and the name of the goal's field is one
+`extract_field_from_goal` can recover (`FieldOk`). -/
+theorem dfs_complete_code (nm : Naming) (kb : List Rule) (maxDepth maxSol : Nat) (goal : Atom)
+    (order : List Nat) (st : Store)
+    (hu : RuleNamesUnique nm kb) (hf : FieldOk (nm.field goal.field))
+    (horder : ∀ i ∈ topCandidates nm kb goal, i ∈ order)
+    (hkb : KbCons kb) (hst : Compat kb st.data)
+    (h : Nat) (hh : h ≤ maxDepth + 1) (hd : Deriv kb st.data h goal) :
+    (query kb .dfs maxDepth maxSol (subCandidates nm kb) goal order st).provable = true := by
+  refine dfs_complete kb maxDepth maxSol (subCandidates nm kb) goal order st hkb hst ?_
+    (fun _ _ b _ => subCandidates_covers nm kb b) h hh hd
+  intro r hr hcon
+  obtain ⟨i, hi, hk⟩ := topCandidates_covers nm kb goal hu hd.op_eq hf r hr hcon
+  exact ⟨i, horder i hi, hk⟩
+
+/-- oracle (iv) with the code's candidate lists: `dfs_complete_oracle` without `Covers` hypotheses -/
+theorem dfs_complete_oracle_code (nm : Naming) (kb : List Rule) (maxDepth maxSol : Nat) (goal : Atom)
+    (order : List Nat) (before : Facts) (fr : List (Frame (Option Val)))
+    (hu : RuleNamesUnique nm kb) (hf : FieldOk (nm.field goal.field))
+    (horder : ∀ i ∈ topCandidates nm kb goal, i ∈ order)
+    (hhorn : isHorn kb before = true) (hni : noIntLit kb = true) (hgo : goal.op = .eq)
+    (hder : derivableIn kb (dataOf before) maxDepth goal = true) :
+    (query kb .dfs maxDepth maxSol (subCandidates nm kb) goal order ⟨dataOf before, fr⟩).provable = true := by
+  refine dfs_complete_oracle kb maxDepth maxSol (subCandidates nm kb) goal order before fr hhorn hni hgo ?_
+    (fun _ _ b _ => subCandidates_covers nm kb b) hder
+  intro r hr hcon
+  obtain ⟨i, hi, hk⟩ := topCandidates_covers nm kb goal hu hgo hf r hr hcon
+  exact ⟨i, horder i hi, hk⟩
+
+/-- **The rule names of the tie are pairwise different** (`R<i>`, whatever the field names and the
+knowledge base): the hypothesis `RuleNamesUnique` of the theorems above holds for every case the
+driver evaluates. -/
+theorem ruleNameR_unique (field : Nat → String) (kb : List Rule) : RuleNamesUnique ⟨field, ruleNameR⟩ kb :=
+  fun _ _ _ _ h => ruleNameR_inj h
+
+/-- the text of the tie (harness/src/bin/c09.rs, Driver/C09.lean `tieNames`): `FIELDS[i]`, `R<i>` -/
+def exNames : Naming :=
+  ⟨fun | 0 => "A" | 1 => "B" | 2 => "C" | 3 => "D" | 4 => "E" | 5 => "G" | 6 => "X" | 7 => "Y"
+       | 8 => "U.P" | 9 => "U.Q" | _ => "E._return",
+   ruleNameR⟩
+
+/-- every field name of the tie is one `extract_field_from_goal` recovers -/
+example : ∀ f, f < 11 → FieldOk (exNames.field f) := by decide
+
+/-- R0: X == 1 ⇒ `a==b` := true;  R1: X == 1 ⇒ `a` := true  (field 0 is named `a==b`, field 1 `a`) -/
+def oddNames : Naming := ⟨fun | 0 => "a==b" | _ => "a", ruleNameR⟩
+def oddKb : List Rule :=
+  [ ⟨.atom ⟨6, .eq, .num 1⟩, [(0, .bool true)], []⟩, ⟨.atom ⟨6, .eq, .num 1⟩, [(1, .bool true)], []⟩ ]
+
+/-- **`FieldOk` is needed** (a statement about the model only: no GRL text or query string can name
+such a field): with a field called `a==b` the pattern `a==b == true` is cut at its FIRST `==`, the
+index is asked for `a`, answers with the rule that sets `a` — not empty, so no fallback — and the
+rule that sets `a==b` is not offered. -/
+theorem topCandidates_needs_fieldOk :
+    RuleNamesUnique oddNames oddKb ∧ ¬ FieldOk (oddNames.field 0) ∧
+    topCandidates oddNames oddKb ⟨0, .eq, .bool true⟩ = [1] ∧
+    ¬ Covers oddKb (topCandidates oddNames oddKb ⟨0, .eq, .bool true⟩) ⟨0, .eq, .bool true⟩ := by
+  decide
+
+/-! Non-vacuity of the `…_covers` / `…_code` theorems, on `hornKb` with the names of the tie -/
+example : RuleNamesUnique exNames hornKb ∧ FieldOk (exNames.field wGoal.field) := by decide
+-- the index proposes exactly the two rules that set `G`; the heuristic, for `A == true`, the two that set `A`
+example : topCandidates exNames hornKb wGoal = [1, 2] := by decide
+example : subCandidates exNames hornKb ⟨0, .eq, .bool true⟩ = [3, 6] := by decide
+-- whatever order the HashSet yields
+example : (query hornKb .dfs 2 1 (subCandidates exNames hornKb) wGoal [2, 1] ⟨dataOf wBefore, []⟩).provable = true :=
+  dfs_complete_oracle_code exNames hornKb 2 1 wGoal [2, 1] wBefore [] (ruleNameR_unique _ _) (by decide) (by decide)
+    (by decide) (by decide) rfl (by decide)
+example : (query hornKb .dfs 2 3 (subCandidates exNames hornKb) wGoal [1, 2] ⟨dataOf wBefore, []⟩).provable = true :=
+  dfs_complete_oracle_code exNames hornKb 2 3 wGoal [1, 2] wBefore [] (ruleNameR_unique _ _) (by decide) (by decide)
+    (by decide) (by decide) rfl (by decide)
+-- dotted names: the `rfind('.')` branch also proposes the rule that sets the SIBLING field `U.Q` (a superset)
+example : topCandidates exNames
+    [⟨.atom ⟨6, .eq, .num 1⟩, [(8, .bool true)], []⟩, ⟨.atom ⟨6, .eq, .num 1⟩, [(9, .bool true)], []⟩,
+     ⟨.atom ⟨6, .eq, .num 1⟩, [(0, .bool true)], []⟩] ⟨8, .eq, .bool true⟩ = [0, 1] := by decide
+-- the fallback: no rule concludes `Y`, the index proposes nothing, and the scan offers the rules whose `Set` field
+-- (`A`) occurs in the pattern `Y == "A"` — inside the literal
+example : indexCandidates exNames hornKb ⟨7, .eq, .str "A"⟩ = [] ∧
+    topCandidates exNames hornKb ⟨7, .eq, .str "A"⟩ = [3, 6] := by decide
+-- the sub-goal heuristic is a superset too: for `B == "A"` it offers the rule that sets `B` and those that set `A`
+example : subCandidates exNames hornKb ⟨1, .eq, .str "A"⟩ = [3, 4, 6] := by decide
 
 /-- Derivations of nesting 0 on ARBITRARY knowledge bases (no consistency requirement at all):
 if the goal already holds, or some candidate rule whose condition is true in the initial facts
